@@ -6,7 +6,9 @@ Tie: stream `units`.  A core formula with bounds in samples is rendered under se
 no unit = default unit).  Every rendering must give the results of the baseline rendering
 (unit s, period 1 s, bare numbers) on the discrete offline monitor, the online monitor (past formulas)
 and the pastified online monitor (bounded future); the model's `SIv.toSamples` (Lean) must elaborate
-each spelled interval to the same samples.  Bounds that are not multiples of the period must raise
+each spelled interval to the same samples.  Left out (known finding F35, `region_next_pastified`): the pastified monitor of a
+specification with `next` in the configurations whose period is not one default unit - and only those: under a period of one
+default unit (ms with 1 ms, us with 1000 ns, ...) such specifications are rendered and compared like all others.  Bounds that are not multiples of the period must raise
 RTAMTException.  Dense time: harness/dense.py (stream `units-c`).
 
 Order of the configuration calls (`ORDERS`): the sampling period is a configuration of the monitor that is read when the first
@@ -23,7 +25,8 @@ from ..common import same_vals
 from ..engine import Violation, Ctx
 
 RULE = ("core formulas with 1-3 bounded operators (bounds 0..4 samples); 3 random configurations (default unit, period, period unit) "
-        "x 3 random spellings per configuration; monitors: offline, online (past), pastified online (bounded future); plus one "
+        "x 3 random spellings per configuration (pastified specifications with next: configurations with a period of one default unit "
+        "instead of those of the known finding F35); monitors: offline, online (past), pastified online (bounded future); plus one "
         "non-multiple bound per formula; set_sampling_period before parse() (first spelling of a configuration), after parse() or "
         "after pastify() (the other spellings, the non-multiple). distinct by (formula, rendering, data); non-trivial when the baseline result is not constant +-inf.")
 EXPLANATION = ("theorems: C08_normalize_factor (samples x period = written duration), C08_non_multiple_rejected, C08_interval_eq, "
@@ -39,8 +42,41 @@ NS = {"s": 10 ** 9, "ms": 10 ** 6, "us": 10 ** 3, "ns": 1}
 VARS = ["a", "b"]
 
 
+def has_next(case):
+    """The case has a `next` / `s_next` operator (generated cases carry the formula, witnesses and replays the specification text)."""
+    import re
+    if case.get("f") is not None:
+        return any(x[0] == "t1" and x[1] in ("next", "snext") for x in F.subformulas(case["f"]))
+    texts = [case.get(k) or "" for k in ("spec", "spec_a", "spec_b", "baseline_spec")]
+    return any(re.search(r"(?<![A-Za-z0-9_])(s_)?next(?![A-Za-z0-9_])", t) for t in texts)
+
+
+def configurations_of(case):
+    """The (default unit, period, period unit) configurations a case is run under: `cfg` (one rendering of a generated case),
+    `cfg_a` / `cfg_b` (a two-renderings witness) or `unit` / `period` / `period_unit` (the replay object of one rendering)."""
+    if case.get("cfg") is not None:
+        return [cfg_of(case["cfg"])]
+    out = [cfg_of(case[k]) for k in ("cfg_a", "cfg_b") if case.get(k) is not None]
+    if case.get("unit") is not None and case.get("period") is not None:
+        out.append((case["unit"], Fraction(case["period"]), case.get("period_unit") or case["unit"]))
+    return out
+
+
+def one_default_unit(cfg):
+    """The sampling period of the configuration lasts exactly one default unit (whatever unit it is given in)."""
+    unit, period, punit = cfg
+    return Fraction(period) * NS[punit] == NS[unit]
+
+
 def region_next_pastified(case):
-    return case["monitor"] == "past" and any(x[0] == "t1" and x[1] in ("next", "snext") for x in F.subformulas(case["f"]))
+    """F35: the pastified monitor of a specification with `next` / `s_next`, in a configuration whose sampling period is NOT one
+    default unit (pastify() removes a next by one default unit).  The predicate is about ONE rendering: a generated case is run
+    under several configurations, each of which is asked separately (`cfg`); the configurations whose period lasts one default
+    unit - unit s with 1 s, unit ms with 1 ms, the period written in another unit (1000 us) - are outside the finding and are
+    explored, with set_sampling_period in every place of `ORDERS`.  A case without any configuration is not in the region."""
+    if case.get("monitor") != "past" or not has_next(case):
+        return False
+    return any(not one_default_unit(cfg) for cfg in configurations_of(case))
 
 
 def region_shifted_window_pastified(case):
@@ -75,6 +111,34 @@ def configs(rng):
             punit = "ns"
             period = pns
         out.append((rng.choice(UNITS), period, punit))
+    return out
+
+
+def config_one_default_unit(rng):
+    """A configuration whose period lasts one default unit: the unit is mostly not s (the period that is configured before
+    set_sampling_period is called is 1 s), the period is given in the default unit or in another one (1 ms = 1000 us)."""
+    unit = rng.choice(["ms", "us", "ns", "ms", "us", "s"])
+    pns = Fraction(NS[unit])
+    punit = unit if rng.random() < 0.5 else rng.choice(UNITS)
+    period = pns / NS[punit]
+    if period.denominator != 1:
+        punit = "ns"
+        period = pns
+    return (unit, period, punit)
+
+
+def case_configs(ctx, case, rng):
+    """The configurations one case is rendered under: `configs(rng)`; for a pastified specification with `next` the configurations
+    inside the region of a known finding (F35: period not one default unit) are left out - counted - and configurations with a
+    period of one default unit take their place, so that such specifications are explored wherever the finding does not reach."""
+    out = []
+    for cfg in configs(rng):
+        if disc.known_region(ctx, dict(case, cfg=cfg), REGIONS):
+            ctx.skipped_known += 1
+            ctx.count("configuration-in-known-region(skipped)")
+            cfg = config_one_default_unit(rng)
+            ctx.count("next-pastified:period-one-default-unit")
+        out.append(cfg)
     return out
 
 
@@ -257,7 +321,7 @@ def check_case(ctx, case, rng):
     if disc.nontrivial(base[1]):
         ctx.nontrivial.add((mon,) + disc.data_key(base_text, data))
     diff = None
-    for (unit, period, punit) in configs(rng):
+    for (unit, period, punit) in case_configs(ctx, case, rng):
         pns = period * NS[punit]
         for k in range(3):
             rec, consts = [], []
@@ -288,7 +352,7 @@ def check_case(ctx, case, rng):
                                      % (sp[0], sp[1], sp[2], sp[3], unit, period, punit, m, a, b), rep2, failing_input=False,
                                      stream="units/model")
     # one non-multiple: replace the first interval's upper bound by (b + 1/2) periods
-    unit, period, punit = rng.choice(configs(rng))
+    unit, period, punit = rng.choice(case_configs(ctx, case, rng))
     pns = period * NS[punit]
     first = next(x for x in F.subformulas(f) if x[0] in ("tb1", "tb2"))
     bad_b = (Fraction(first[3]) + Fraction(1, 2)) * pns
@@ -428,7 +492,17 @@ def cfg_of(c):
     return c[0], Fraction(c[1]), c[2]
 
 
+def witnesses_inside_regions(ctx):
+    """Every known finding of the property names a region that is left out of the exploration; its witness has to lie inside it
+    (a region narrower than the finding would turn the finding into an alarm, a witness outside says the region is another one)."""
+    for kf in ctx.known:
+        if kf.get("status") == "known" and kf.get("region") in REGIONS and kf.get("witness") is not None:
+            if not REGIONS[kf["region"]](kf["witness"]):
+                raise common.HarnessError("the witness of %s is outside its region %r" % (kf.get("id"), kf["region"]))
+
+
 def run(ctx):
+    witnesses_inside_regions(ctx)
     explore(ctx, ctx.subrng("units"), ctx.budget(180, 1500))
     if not ctx.violations:
         try:
